@@ -18,7 +18,8 @@ theorem C12_parity_identical (c : Codec F) (hc : GoodCodec c) (msg : List F) (k 
     (hm : msg.length ≤ effK c k) (hk : effK c k ≤ c.n) (a b : Nat)
     (ha : a = 1 ∨ a = 2 ∨ a = 3) (hb : b = 1 ∨ b = 2 ∨ b = 3) :
     encode { c with algo := a } msg k = encode { c with algo := b } msg k := by
-  sorry
+  rw [Pff.RSProofs.encode_algo_irrelevant c hc msg k hm hk a ha,
+    Pff.RSProofs.encode_algo_irrelevant c hc msg k hm hk b hb]
 
 /-- The systematic parity is unique: whatever passes the check for a message (with the right
 length) is the parity the encoders produce — hence each codec verifies ecc produced by the others. -/
@@ -26,13 +27,15 @@ theorem C12_parity_unique (c : Codec F) (hc : GoodCodec c) (msg ecc : List F) (k
     (hm : msg.length ≤ effK c k) (hk : effK c k ≤ c.n) (he : ecc.length = c.n - effK c k)
     (h : check c msg ecc k = true) :
     ecc = encode c msg k := by
-  sorry
+  exact Pff.RSProofs.check_unique c hc msg ecc k hm hk he h
 
 /-- Concretely for `--ecc_algo 1|2|3`: byte-identical parity. -/
 theorem C12_codecs_1_2_3 (n k0 k : Nat) (hn : n ≤ 255) (msg : List (Elt pA))
     (hm : msg.length ≤ effK (codecA 1 n k0) k) (hk : effK (codecA 1 n k0) k ≤ n) :
     encode (codecA 1 n k0) msg k = encode (codecA 3 n k0) msg k ∧
     encode (codecA 2 n k0) msg k = encode (codecA 3 n k0) msg k := by
-  sorry
+  have hc := C11_codecA_good 1 n k0 (Or.inl rfl) hn
+  exact ⟨C12_parity_identical (codecA 1 n k0) hc msg k hm hk 1 3 (by simp) (by simp),
+    C12_parity_identical (codecA 1 n k0) hc msg k hm hk 2 3 (by simp) (by simp)⟩
 
 end Pff.RSSpec
